@@ -249,5 +249,97 @@ func Calibrate() (Calibration, error) {
 			c.Mismatches = append(c.Mismatches, fmt.Sprintf("#%d VERDICT: got ok=%v err=%s want %s | %x | %x | flags %x (%s)", i, r.OK, r.Err, v.Expected, v.Unlock, v.Lock, v.Flags, v.Comment))
 		}
 	}
+	// multi-input ground truth: every input of every tx_valid.json transaction must verify
+	n, ok, bad, err := CalibrateTxValid()
+	if err != nil {
+		return c, err
+	}
+	c.Vectors += n
+	c.VerdictAgree += ok
+	c.NameAgree += ok
+	c.Mismatches = append(c.Mismatches, bad...)
 	return c, nil
+}
+
+// CalibrateTxValid runs the reference over the node's tx_valid.json: every input
+// of every listed transaction must verify against its listed previous output
+// under the listed flags (multi-input transactions, all hash types the node
+// authors chose, CLTV/CSV contexts). It returns (inputs checked, inputs agreed).
+func CalibrateTxValid() (int, int, []string, error) {
+	b, err := os.ReadFile(filepath.Join(RepoDir(), "bscript", "interpreter", "data", "tx_valid.json"))
+	if err != nil {
+		return 0, 0, nil, err
+	}
+	var raw [][]any
+	if err := json.Unmarshal(b, &raw); err != nil {
+		return 0, 0, nil, err
+	}
+	n, ok := 0, 0
+	var bad []string
+	for ti, t := range raw {
+		if len(t) != 3 {
+			continue
+		}
+		ins, _ := t[0].([]any)
+		hexTx, _ := t[1].(string)
+		flagStr, _ := t[2].(string)
+		if ins == nil {
+			continue
+		}
+		txb, err := hex.DecodeString(hexTx)
+		if err != nil {
+			return n, ok, bad, err
+		}
+		d, err := ref.Decode(txb)
+		if err != nil {
+			return n, ok, bad, fmt.Errorf("tx_valid #%d does not decode: %v", ti, err)
+		}
+		flags, err := ParseFlags(flagStr)
+		if err != nil {
+			return n, ok, bad, err
+		}
+		type prev struct {
+			script []byte
+			amount uint64
+		}
+		prevs := map[string]prev{}
+		for _, x := range ins {
+			a, _ := x.([]any)
+			if len(a) < 3 {
+				continue
+			}
+			h, _ := a[0].(string)
+			idx, _ := a[1].(float64)
+			ss, _ := a[2].(string)
+			sc, err := ParseShortForm(ss)
+			if err != nil {
+				return n, ok, bad, err
+			}
+			var amt uint64
+			if len(a) > 3 {
+				if f, isF := a[3].(float64); isF {
+					amt = uint64(f)
+				}
+			}
+			prevs[fmt.Sprintf("%s:%d", strings.ToLower(h), uint32(int32(idx)))] = prev{sc, amt}
+		}
+		m := d.Tx
+		for i := range m.In {
+			p, found := prevs[fmt.Sprintf("%s:%d", hex.EncodeToString(m.In[i].TxID), m.In[i].Vout)]
+			if !found {
+				return n, ok, bad, fmt.Errorf("tx_valid #%d: no previous output for input %d", ti, i)
+			}
+			m.In[i].PrevScript, m.In[i].PrevSats = p.script, p.amount
+		}
+		for i := range m.In {
+			n++
+			r := VerifyScript(m.In[i].Unlock, m.In[i].PrevScript, flags, TxChecker{Tx: m, Idx: i, Amount: m.In[i].PrevSats}, false, Limits{MaxElem: 64 << 20})
+			if r.OK {
+				ok++
+			} else {
+				bad = append(bad, fmt.Sprintf("tx_valid #%d input %d: %s", ti, i, r.Err))
+			}
+		}
+	}
+	return n, ok, bad, nil
 }
